@@ -1,5 +1,7 @@
-(* C08 -- append preserves history.  Statements only (general theorems arrive with HeaderProofs.v / AppendProofs.v). *)
-From P7 Require Import Prelude PyPrims Number Header Spec.
+(* C08 -- append preserves history.  Statements only; model in theories/Append.v, proofs in theories/AppendProofs.v
+   (composition with HeaderProofs.header_roundtrip and Assign.v impl_plans). *)
+From P7 Require Import Prelude PyPrims Number Header Spec Assign AssignProofs Append AppendProofs.
+From P7 Require HeaderProofs.
 Open Scope Z_scope.
 
 (* re-serialising a parsed py7zr-like header is lossless for the members it describes (concrete instance by computation) *)
@@ -31,3 +33,148 @@ Example C08_reserialise_lossless_example :
   | Err _ => False
   end.
 Proof. vm_compute. repeat split; reflexivity. Qed.
+
+(* ------------------------------------------------------------------ *)
+(* (1) the meaning of the result extends the meaning of the base: every earlier entry keeps name, kind,
+   folder, offset, size, CRC, mtime, attributes and id; the session's members follow in order, in the new
+   folder, at consecutive offsets *)
+Theorem C08_append_preserves_plans : forall pw h nf ms psz pcrc h' ps,
+  base_ok h = true -> impl_plans h = Ok ps -> forallb member_ok ms = true ->
+  append_session pw h nf ms psz pcrc = Ok h' ->
+  impl_plans h' = Ok (ps ++ new_plans (nfiles h) (nfolders h) 0 ms).
+Proof. exact append_preserves_plans. Qed.
+Print Assumptions C08_append_preserves_plans.
+
+(* the same for a base read from a header that is valid by the format's own reading (Spec.v, AssignProofs.nice):
+   its plans are the format's plans (assign_conforms) and the append extends them *)
+Theorem C08_append_preserves_spec_base : forall pw sh nf ms psz pcrc h',
+  nice sh = true -> forallb member_ok ms = true ->
+  append_session pw (embed sh) nf ms psz pcrc = Ok h' ->
+  exists ps, impl_plans (embed sh) = Ok ps /\ plans_agree 0 (spec_plans sh) ps = true /\
+             impl_plans h' = Ok (ps ++ new_plans (zlen (sh_files sh)) (zlen (sh_folders sh)) 0 ms).
+Proof. exact append_preserves_spec_base. Qed.
+Print Assumptions C08_append_preserves_spec_base.
+
+(* ... and what close() writes reads back with those plans *)
+Theorem C08_append_then_reopen : forall lim pw h nf ms psz pcrc h' ps pos bs,
+  base_ok h = true -> impl_plans h = Ok ps -> forallb member_ok ms = true ->
+  append_session pw h nf ms psz pcrc = Ok h' ->
+  HeaderProofs.wf_header lim (enable_digests pw h) (canon_header h') = true ->
+  sizes_canonical h' = true -> nums_nonempty h' = true ->
+  write_header (enable_digests pw h) pos h' = Ok bs ->
+  exists h2, parse_header lim bs = Ok h2 /\
+             impl_plans h2 = Ok (ps ++ new_plans (nfiles h) (nfolders h) 0 ms).
+Proof. exact append_then_reopen. Qed.
+Print Assumptions C08_append_then_reopen.
+
+(* re-serialisation alone: norm drops only what impl_plans does not read *)
+Theorem C08_impl_plans_norm : forall lim en h,
+  HeaderProofs.wf_header lim en h = true -> sizes_canonical h = true -> nums_nonempty h = true ->
+  impl_plans (HeaderProofs.norm en h) = impl_plans h.
+Proof. exact impl_plans_norm. Qed.
+Print Assumptions C08_impl_plans_norm.
+
+(* (2) the new packed stream starts exactly at the end of the base's packed area; the packed streams of the
+   result tile [start, pos + packsize); no old packed byte lies in what the session writes *)
+Theorem C08_append_position_after_data : forall pw h nf ms psz pcrc h' ah,
+  ms <> [] -> append_session pw h nf ms psz pcrc = Ok h' ->
+  let p := base_pack h in
+  p_numstreams p = zlen (p_sizes p) ->
+  let start := ah + p_pos p in
+  let pos := start + sumZ (p_sizes p) in
+  append_position h ah = Ok pos /\
+  exists p', pack_of h' = Some p' /\ p_pos p' = p_pos p /\ p_sizes p' = p_sizes p ++ [psz] /\
+             p_numstreams p' = zlen (p_sizes p') /\
+             tiling start (p_sizes p') = tiling start (p_sizes p) ++ [(pos, psz)] /\
+             tiles start (tiling start (p_sizes p')) (pos + psz) /\
+             (Forall (fun x => 0 <= x) (p_sizes p) ->
+              forall o s, In (o, s) (tiling start (p_sizes p)) -> start <= o /\ o + s <= pos).
+Proof. exact append_position_after_data. Qed.
+Print Assumptions C08_append_position_after_data.
+
+(* (3) k sessions: the graph a session leaves is again a base, and every earlier plan survives; with the
+   archive written and read back between the sessions (reopen_checked: Header.write, Header._read, the
+   generated names, guarded by the computable well-formedness conditions of the round trip) *)
+Theorem C08_append_session_base_ok : forall pw h nf ms psz pcrc h',
+  base_ok h = true -> forallb member_ok ms = true ->
+  append_session pw h nf ms psz pcrc = Ok h' -> base_ok h' = true.
+Proof. exact append_session_base_ok. Qed.
+Print Assumptions C08_append_session_base_ok.
+
+Theorem C08_append_sessions_preserve : forall lim pw posf dflt ss h ps hk,
+  base_ok h = true -> impl_plans h = Ok ps ->
+  Forall (fun s => forallb member_ok (ss_members s) = true) ss ->
+  append_sessions (reopen_checked lim pw posf dflt) pw h ss = Ok hk ->
+  base_ok hk = true /\ exists qs, impl_plans hk = Ok (ps ++ qs).
+Proof. exact append_sessions_preserve_reopened. Qed.
+Print Assumptions C08_append_sessions_preserve.
+
+Theorem C08_append_sessions_preserve_graph : forall pw ss h ps hk,
+  base_ok h = true -> impl_plans h = Ok ps ->
+  Forall (fun s => forallb member_ok (ss_members s) = true) ss ->
+  append_sessions (fun x => Ok x) pw h ss = Ok hk ->
+  base_ok hk = true /\ exists qs, impl_plans hk = Ok (ps ++ qs).
+Proof. exact append_sessions_preserve_graph. Qed.
+Print Assumptions C08_append_sessions_preserve_graph.
+
+(* the hypotheses are met by concrete non-trivial states (a two-folder base with a directory between data
+   entries; a session of two data members and a directory; a foreign base without SIZE record, with partly
+   defined packed-stream CRCs; two sessions with a real re-open between them) *)
+Example C08_hypotheses_example :
+  base_ok x_base = true /\ forallb member_ok x_members = true /\
+  exists h', append_session false x_base x_newfolder x_members 12 999 = Ok h' /\
+             HeaderProofs.wf_header 1000 (enable_digests false x_base) (canon_header h') = true /\
+             sizes_canonical h' = true /\ nums_nonempty h' = true /\
+             reopen_guard 1000 (enable_digests false h') h' = true.
+Proof. exact append_example_hypotheses. Qed.
+
+Example C08_partial_pack_crc_example :
+  exists h' bs h2, append_session false x_foreign x_newfolder x_members 12 999 = Ok h' /\
+    write_header (enable_digests false x_foreign) 84 h' = Ok bs /\ parse_header 1000 bs = Ok h2 /\
+    option_map (fun p => (p_sizes p, p_digestdefined p, p_crcs p)) (pack_of h2) =
+      Some ([40; 7; 12], [true; false; true], [77; 0; 999]) /\
+    append_position x_foreign 32 = Ok (32 + 5 + 47).
+Proof. exact append_partial_pack_crc_example. Qed.
+
+Example C08_sessions_example :
+  let s1 := mkSession x_newfolder x_members 12 999 in
+  let s2 := mkSession (mkFolder [x_lzma2] [] [] [9] false None) [mkMember (x_file 130 6000) (Some (9, 333))] 20 555 in
+  exists ps hk qs, impl_plans x_foreign = Ok ps /\ length ps = 3%nat /\
+    append_sessions (reopen_checked 1000 false (fun _ => 100) [99]) false x_foreign [s1; s2] = Ok hk /\
+    impl_plans hk = Ok (ps ++ qs) /\ length qs = 4%nat.
+Proof. exact append_sessions_example. Qed.
+
+(* an existing archive whose header cannot be read (here: a valid header with ArchiveProperties) is refused,
+   never replaced *)
+Example C08_open_unreadable_example :
+  exists bs0, write_header false 79 x_base = Ok bs0 /\
+    (exists sh, s_header 1000 (1 :: [2; 153; 1; 7; 0] ++ tl bs0) = Ok sh /\ s_valid sh = true /\ length (spec_plans sh) = 4%nat) /\
+    open_for_append 1000 [99] (1 :: [2; 153; 1; 7; 0] ++ tl bs0) = Err EBad7z.
+Proof. exact open_for_append_unreadable_example. Qed.
+
+(* ------------------------------------------------------------------ *)
+(* (4) what an append does NOT preserve of a foreign base *)
+Theorem C08_append_drops_ctime_atime_refuted :
+  exists h' bs h2, append_session false x_foreign x_newfolder x_members 12 999 = Ok h' /\
+    write_header (enable_digests false x_foreign) 84 h' = Ok bs /\ parse_header 1000 bs = Ok h2 /\
+    option_map (fun fl => map (fun e => (e_ctime e, e_atime e)) (firstn 1 fl)) (h_files x_foreign) = Some [(Some (Some 1), Some (Some 2))] /\
+    option_map (fun fl => map (fun e => (e_ctime e, e_atime e)) (firstn 1 fl)) (h_files h2) = Some [(None, None)].
+Proof. exact append_drops_ctime_atime_refuted. Qed.
+
+Theorem C08_append_names_unnamed_refuted :
+  exists bs0 h h' bs h2,
+    write_header false 39 x_unnamed = Ok bs0 /\ s_valid match s_header 1000 bs0 with Ok a => a | Err _ => mkSHeader 0 [] [] [] [] [] [] [] [] end = true /\
+    open_for_append 1000 [99] bs0 = Ok h /\
+    append_session false h x_newfolder x_members 12 999 = Ok h' /\
+    write_header false 51 h' = Ok bs /\ parse_header 1000 bs = Ok h2 /\
+    option_map (fun fl => map e_name (firstn 1 fl)) (h_files x_unnamed) = Some [None] /\
+    option_map (fun fl => map e_name (firstn 1 fl)) (h_files h2) = Some [Some [99]].
+Proof. exact append_names_unnamed_refuted. Qed.
+
+(* necessity of base_ok's clause on bases without SIZE record (reader: unpacksizes[-1]; initialize: get_unpack_size()) *)
+Theorem C08_append_needs_last_is_main_refuted :
+  base_ok x_mainfirst = false /\
+  exists ps h' ps', impl_plans x_mainfirst = Ok ps /\ map ip_size ps = [7] /\
+    append_session false x_mainfirst x_newfolder x_members 12 999 = Ok h' /\
+    impl_plans h' = Ok ps' /\ map ip_size (firstn 1 ps') = [5].
+Proof. exact append_needs_last_is_main_refuted. Qed.
